@@ -152,6 +152,7 @@ func runC07(r *core.Run) {
 		add("S4", three, 1, "stmt")
 		add("S5", three, 1, "stmt")
 		add("S6", []string{"core", rich}, 1, "stmt")
+		add("S2", []string{"custom+autoid+attr"}, 1, "stmt")
 	} else {
 		add("S0", three, 2, "stmt")
 		add("S0", []string{"core", rich}, 3, "func")
@@ -167,6 +168,8 @@ func runC07(r *core.Run) {
 		add("S6", three, 1, "stmt")
 		add("S6", []string{"core"}, 2, "func")
 		add("S1", []string{"all+unsafe+xhtml+hardwraps", "all+cjk+attr+unsafe"}, 1, "stmt")
+		add("S2", []string{"custom+autoid+attr", "custom+unsafe+xhtml+hardwraps"}, 1, "stmt")
+		add("S5", []string{"custom+autoid+attr"}, 1, "stmt")
 	}
 
 	nsh := core.Workers()
@@ -309,8 +312,8 @@ func c07RacePass(r *core.Run, b *c07Build) {
 	rounds := core.Pick(r, 20, 100)
 	procs := core.Pick(r, 3, 8)
 	for _, sc := range []string{"S1", "S2", "S4", "S5", "S6", "S7"} {
-		for _, c := range []string{"core", "all+cjk+autoid+attr"} {
-			if sc == "S7" && c != "core" {
+		for _, c := range []string{"core", "all+cjk+autoid+attr", "custom+autoid+attr"} {
+			if sc == "S7" && c != "core" || c[0] == 'c' && c[1] == 'u' && sc != "S2" && sc != "S5" {
 				continue
 			}
 			for p := 0; p < procs; p++ {
